@@ -204,6 +204,9 @@ pub struct ShapeCase {
     pub shape: usize,
     pub seed: u64,
     pub calls: u8,
+    /// second family of shapes (modules single_b / multi_b): colliding struct names, members named by path
+    #[serde(default)]
+    pub second: bool,
 }
 
 pub fn outcome(c: &ShapeCase) -> Outcome {
@@ -215,14 +218,25 @@ pub fn outcome(c: &ShapeCase) -> Outcome {
 
 fn run(c: &ShapeCase) -> (Vec<(&'static str, u64)>, bool, Result<(), Failure>) {
     let calls = c.calls.clamp(1, 5) as usize;
-    let (n, info) = if c.market { (multi::N_SHAPES, &multi::INFO[..]) } else { (single::N_SHAPES, &single::INFO[..]) };
+    let (n, info) = match (c.market, c.second) {
+        (false, false) => (single::N_SHAPES, &single::INFO[..]),
+        (true, false) => (multi::N_SHAPES, &multi::INFO[..]),
+        (false, true) => (single_b::N_SHAPES, &single_b::INFO[..]),
+        (true, true) => (multi_b::N_SHAPES, &multi_b::INFO[..]),
+    };
     let idx = c.shape % n;
     let (fields, leaves, repeated, nested, builtin, sorted_names) = info[idx];
-    let go = |derived: bool| if c.market { multi::run_shape(idx, derived, c.seed, calls) } else { single::run_shape(idx, derived, c.seed, calls) };
+    let go = |derived: bool| match (c.market, c.second) {
+        (false, false) => single::run_shape(idx, derived, c.seed, calls),
+        (true, false) => multi::run_shape(idx, derived, c.seed, calls),
+        (false, true) => single_b::run_shape(idx, derived, c.seed, calls),
+        (true, true) => multi_b::run_shape(idx, derived, c.seed, calls),
+    };
     let d = go(true);
     let m = go(false);
     let classes = vec![
         ("shape_runs", 1u64),
+        ("shape_of_second_family_colliding_names_members_by_path", c.second as u64),
         ("shape_has_repeated_type", repeated as u64),
         ("shape_has_nested_set", nested as u64),
         ("shape_has_builtin_agent", builtin as u64),
@@ -271,7 +285,8 @@ fn run(c: &ShapeCase) -> (Vec<(&'static str, u64)>, bool, Result<(), Failure>) {
 pub fn parts(tier: Tier) -> (Vec<Part<Case>>, String) {
     let seeds: u64 = tier.pick(600, 4_000);
     let (ns, nm) = (single::N_SHAPES as u64, multi::N_SHAPES as u64);
-    let total = (ns + nm) * seeds;
+    let (nsb, nmb) = (single_b::N_SHAPES as u64, multi_b::N_SHAPES as u64);
+    let total = (ns + nm + nsb + nmb) * seeds;
     let all = Part {
         name: "all-shapes-x-seeds".to_string(),
         kind: PartKind::Exhaustive {
@@ -279,15 +294,23 @@ pub fn parts(tier: Tier) -> (Vec<Part<Case>>, String) {
             decode: Box::new(move |i| {
                 let s = i / seeds;
                 let seed = (i % seeds).wrapping_mul(0x9E37_79B9_7F4A_7C15) ^ crate::engine::verif_seed();
-                let (market, shape) = if s < ns { (false, s as usize) } else { (true, (s - ns) as usize) };
-                Some(Case::Shape(ShapeCase { market, shape, seed, calls: 1 + (i % 5) as u8 }))
+                let (market, second, shape) = if s < ns {
+                    (false, false, s as usize)
+                } else if s < ns + nm {
+                    (true, false, (s - ns) as usize)
+                } else if s < ns + nm + nsb {
+                    (false, true, (s - ns - nm) as usize)
+                } else {
+                    (true, true, (s - ns - nm - nsb) as usize)
+                };
+                Some(Case::Shape(ShapeCase { market, shape, seed, calls: 1 + (i % 5) as u8, second }))
             }),
-            description: format!("every generated struct shape ({} deriving AgentSet, {} deriving MarketAgentSet; 1..8 named fields, random identifiers incl. raw identifiers and leading underscores in non-lexicographic order, member types from {{probe A, probe B, built-in random agents, an earlier derived set (nesting depth <= 2)}}) x {} seeds x 1..5 consecutive update calls", ns, nm, seeds),
+            description: format!("every generated struct shape ({} deriving AgentSet, {} deriving MarketAgentSet; 1..8 named fields, random identifiers incl. raw identifiers and leading underscores in non-lexicographic order, member types from {{probe A, probe B, built-in random agents, an earlier derived set (nesting depth <= 2)}}) plus a second family in separate modules ({} + {} shapes) whose struct names collide with the first family's and whose members include sets of the first family named by path; x {} seeds x 1..5 consecutive update calls", ns, nm, nsb, nmb, seeds),
         },
     };
     let rnd = Part {
         name: "random-shape-seed".to_string(),
-        kind: PartKind::Random { make: Box::new(|| (any::<bool>(), 0usize..4096, any::<u64>(), 1u8..=5).prop_map(|(market, shape, seed, calls)| Case::Shape(ShapeCase { market, shape, seed, calls })).boxed()), cases: tier.pick(20_000, 400_000) },
+        kind: PartKind::Random { make: Box::new(|| (any::<bool>(), 0usize..4096, any::<u64>(), 1u8..=5, 0u8..4).prop_map(|(market, shape, seed, calls, fam)| Case::Shape(ShapeCase { market, shape, seed, calls, second: fam == 0 })).boxed()), cases: tier.pick(20_000, 400_000) },
     };
     (
         vec![all, rnd],
